@@ -168,6 +168,16 @@ CHECKS = {
             "only dotted edges whose head is a keep with parameters.",
             "weaker reading for dotted edges (style, direction, head has parameters)",
             "5/C18"),
+    "C03": ("progmc", "model_checking",
+            "signature tables recomputed exhaustively in differing real interpreters + history exploration + pinned corpus",
+            "(A) the signature map of every (program, variant, entry) of the family is recomputed in real interpreters that differ in "
+            "PYTHONHASHSEED, working directory, package directory, store kind, extra_debug (option and per call) and graph export, and "
+            "compared with the base table; (B) all edit/restart histories of the C01 quick plan with the oracle 'signatures are a function "
+            "of (program, variant, entry)' (a violating pair of histories is replayed together); (C) a pinned corpus of 533 committed "
+            "packages + hand-written pipelines must reproduce its committed signatures byte for byte; (D) the same text as package module, "
+            "__main__ script and IPython cells incl. re-definition.",
+            "the corpus was pinned on this tree after its fix: commits and is read-only for the check",
+            "5/C03"),
 }
 
 NOT_YET = {}
